@@ -23,6 +23,8 @@ type Topo struct {
 	Writes int
 	// OnWrite, when set, is called (outside the lock) after every successful write
 	OnWrite func(ev topoapi.Event)
+	// OnList, when set, is called (outside the lock) at the start of every List call; it may block
+	OnList func()
 }
 
 type topoWatcher struct {
@@ -125,6 +127,12 @@ func (t *Topo) Get(ctx context.Context, id topoapi.ID) (*topoapi.Object, error) 
 
 // List lists topology objects matching the filters the repository uses
 func (t *Topo) List(ctx context.Context, filters *topoapi.Filters) ([]topoapi.Object, error) {
+	t.mu.Lock()
+	hook := t.OnList
+	t.mu.Unlock()
+	if hook != nil {
+		hook()
+	}
 	t.mu.Lock()
 	defer t.mu.Unlock()
 	ids := make([]string, 0, len(t.objs))
@@ -292,4 +300,11 @@ func (t *Topo) Has(id string) bool {
 	defer t.mu.Unlock()
 	_, ok := t.objs[topoapi.ID(id)]
 	return ok
+}
+
+// SetOnList installs (or removes) the hook List calls at its start
+func (t *Topo) SetOnList(f func()) {
+	t.mu.Lock()
+	t.OnList = f
+	t.mu.Unlock()
 }
